@@ -458,7 +458,7 @@ func firstLine(s string) string {
 func init() {
 	mc.Register(&mc.Check{
 		Prop:        "C04",
-		Rule:        "every (function-value kind x lifetime) and every (producer-form set x consumer parameter shape x lifetimes) configuration is built on the real container, the consumer and the whole identity universe (14 types x 3 keys, 14 types x 2 groups) are resolved; plus replaced outputs: one output of a multi-return / result-object / two-alias registration removed and registered again with another constructor (3 x 3 lifetimes, either output, with and without a consumer of both identities, both request orders in two scopes): every identity must come from the constructor now registered for it; an outcome is the canonical observation string of one configuration (distinct = different strings)",
+		Rule:        "every (function-value kind x lifetime) and every (producer-form set x consumer parameter shape x lifetimes) configuration is built on the real container, the consumer and the whole identity universe (14 types x 3 keys, 14 types x 2 groups) are resolved; plus replaced outputs: one output of a multi-return / result-object / two-alias registration removed and registered again with another constructor (3 x 3 lifetimes, either output, with and without a consumer of both identities, both request orders in two scopes): every identity must come from the constructor now registered for it; plus three-output result objects / multi-return constructors one of whose outputs is always nil (3 forms x 3 lifetimes x 3 positions, two request orders): the other outputs keep their own identities, the nil one resolves to nothing; an outcome is the canonical observation string of one configuration (distinct = different strings)",
 		Assume:      []string{"reference registry model in props/model.go (written from the documentation)", "constructors are reflect.MakeFunc / handwritten functions that record their own invocation"},
 		MinOutcomes: 10,
 		Jobs: func(tier string) []mc.Job {
@@ -467,6 +467,7 @@ func init() {
 				{Name: "forms-1", Run: func(r *mc.Report) { c04Forms(r, 1) }},
 				{Name: "forms-2", Run: func(r *mc.Report) { c04Forms(r, 2) }},
 				{Name: "replaced-output", Run: c04Replace},
+				{Name: "nil-output", Run: c04NilOutputs},
 			}
 		},
 	})
@@ -704,6 +705,137 @@ func c04Replace(r *mc.Report) {
 						run(c04ReplaceCase{Life: life, Form: form, Replace: rep, ReplLife: rl, Consumer: cons})
 					}
 				}
+			}
+		}
+	}
+}
+
+// ---- result objects / multiple returns with a nil output: the remaining outputs keep THEIR identities
+
+type c04NilCase struct {
+	Life string `json:"life"`
+	Form string `json:"form"` // resobj | resobj-keys | multi
+	Nil  int    `json:"nil"`  // index of the output the constructor leaves nil
+}
+
+func c04NilOutputs(r *mc.Report) {
+	run := func(c c04NilCase) {
+		r0 := kit.Reg{ID: 0, Life: c.Life}
+		var ids []Ident
+		switch c.Form {
+		case "resobj":
+			r0.ResObj = true
+			r0.Outs = []kit.Out{{T: "P0"}, {T: "P1"}, {T: "P2"}}
+			ids = []Ident{{T: "P0"}, {T: "P1"}, {T: "P2"}}
+		case "resobj-keys":
+			// one type under three keys: nothing but the field position / name tells the outputs apart
+			r0.ResObj = true
+			r0.Outs = []kit.Out{{T: "D1", Key: "k1"}, {T: "D1", Key: "k2"}, {T: "D1"}}
+			ids = []Ident{{T: "D1", Key: "k1"}, {T: "D1", Key: "k2"}, {T: "D1"}}
+		case "multi":
+			r0.Outs = []kit.Out{{T: "P0"}, {T: "P1"}, {T: "P2"}}
+			ids = []Ident{{T: "P0"}, {T: "P1"}, {T: "P2"}}
+		}
+		spec := kit.Spec{Regs: []kit.Reg{r0}}
+		// a consumer of the last non-nil output
+		last := len(ids) - 1
+		if c.Nil == last {
+			last--
+		}
+		consLife := "transient"
+		if c.Life == "scoped" {
+			consLife = "scoped"
+		}
+		spec.Regs = append(spec.Regs, kit.Reg{ID: 1, Life: consLife, In: true, Outs: []kit.Out{{T: "D5"}}, Deps: []kit.Dep{{T: ids[last].T, Key: ids[last].Key}}})
+		var e *Env
+		s := seqOnce(func() {
+			e = NewEnv(&spec)
+			e.W.Faults["0:*"] = fmt.Sprintf("nil:%d", c.Nil)
+			e.Build()
+			if e.Prov == nil {
+				return
+			}
+			for _, sn := range []string{"s1", "s2"} {
+				e.Do(Op{Kind: "scope", Bind: sn})
+				order := []int{0, 1, 2}
+				if sn == "s2" {
+					order = []int{2, 1, 0}
+				}
+				for _, i := range order {
+					e.Do(Op{Kind: "get", Scope: sn, T: ids[i].T, Key: ids[i].Key})
+				}
+				e.Do(Op{Kind: "get", Scope: sn, T: "D5"})
+				for _, i := range order {
+					e.Do(Op{Kind: "get", Scope: sn, T: ids[i].T, Key: ids[i].Key})
+				}
+			}
+			e.Do(Op{Kind: "close", Scope: ""})
+		})
+		r.Executions++
+		r.Validated++
+		r.States++
+		r.Transitions += int64(len(e.Results) + 2)
+		var fs []Finding
+		if e.BuildPanic != nil {
+			fs = append(fs, Finding{feat("clause", "panic", "op", "build"), fmt.Sprint(e.BuildPanic)})
+		}
+		// (a singleton registration with a nil output may legitimately fail to build: not judged here)
+		for _, rr := range e.Results {
+			if rr.Op.Kind != "get" || rr.Skipped {
+				continue
+			}
+			if rr.Panic != nil {
+				fs = append(fs, Finding{feat("clause", "panic", "op", "get"), fmt.Sprintf("%s panicked: %v", rr.Op, rr.Panic)})
+				continue
+			}
+			if rr.Op.T == "D5" {
+				continue
+			}
+			idx := -1
+			for i, x := range ids {
+				if x.T == rr.Op.T && x.Key == rr.Op.Key {
+					idx = i
+				}
+			}
+			in := kit.InstOf(rr.Val)
+			if in == nil {
+				continue // an error or a typed nil: the nil output is simply not available
+			}
+			if in.Reg != 0 || in.Out != idx {
+				what := "another output"
+				if idx == c.Nil {
+					what = "another output although the constructor left this one nil"
+				}
+				fs = append(fs, Finding{feat("clause", "wrong-producer", "form", regForm(&spec.Regs[0]), "fnkind", "nil-output"),
+					fmt.Sprintf("%s: identity %s (output %d) resolved to %s - %s", rr.Op, ids[idx], idx, in.Label(), what)})
+			}
+		}
+		// the consumer of a non-nil output must be wired to exactly that output
+		for _, cl := range e.W.CallsOf(1) {
+			for _, a := range cl.Args {
+				if a.Kind == "inst" && (a.Inst.Reg != 0 || a.Inst.Out != last) {
+					fs = append(fs, Finding{feat("clause", "wrong-argument", "dep", "field", "fnkind", "nil-output"),
+						fmt.Sprintf("the consumer of %s (output %d) received %s", ids[last], last, a.Inst.Label())})
+				}
+			}
+		}
+		fs = append(fs, genericFindings(nil, s)...)
+		r.Outcome(fmt.Sprintf("nil-output %s/%s nil=%d | %s", c.Form, c.Life, c.Nil, e.Summary()))
+		for _, f := range fs {
+			r.Violate(f.F, f.Detail+fmt.Sprintf("\n  %s %s registration with three outputs, output %d is always nil", c.Life, c.Form, c.Nil), c)
+		}
+	}
+	if r.Only != nil {
+		var c c04NilCase
+		if json.Unmarshal(r.Only, &c) == nil && c.Form != "" && c.Life != "" && c.Nil >= 0 {
+			run(c)
+		}
+		return
+	}
+	for _, life := range []string{"scoped", "transient", "singleton"} {
+		for _, form := range []string{"resobj", "resobj-keys", "multi"} {
+			for n := 0; n < 3; n++ {
+				run(c04NilCase{Life: life, Form: form, Nil: n})
 			}
 		}
 	}
